@@ -4,6 +4,9 @@
            "L <secs> <nsecs> <dplaces>"-> "<gm text>|<localtime text>"
            "S <secs>,<nsecs>,<dplaces>,<gm> ..." -> "<text>|<text>|..."  (one rendering per call, in order;
                                           the model renders each call independently: the function is stateless)
+           "C <iters> <t,..>;<t,..>;.."-> "K0=0 K1=0 .."   mismatches per thread between the concurrent and the
+                                          single-threaded rendering of the same instants; the model function is
+                                          pure, so its answer is 0 for every thread
            "G <day>"                   -> "<year> <month> <day> <hour> <min> <sec>"  (get_tm of midnight of that day)
    texts are escaped: bytes outside 33..126 (and backslash, '|') as \xHH; in L a space stays. *)
 let esc ?(space=false) (l : z list) : string =
@@ -92,6 +95,10 @@ let () = run_protocol (fun case impl ->
        List.length parts = List.length calls &&
        List.for_all2 (fun (a, b, d) t -> c09_log_ok a b d (unesc t)) calls parts) in
     (ms, oi, om)
+  | ["C"; _; lists] ->
+    let k = List.length (split_on ';' lists) in
+    let ms = String.concat " " (List.init k (fun j -> Printf.sprintf "K%d=0" j)) in
+    (ms, impl = ms, true)
   | ["G"; day] ->
     let day = z_of_string day in
     let r = tv_get_tm (Z.mul day (z_of_string "86400000000000")) in
